@@ -43,7 +43,11 @@ func (fr *frame) doCall(cc *ssa.CallCommon, site ssa.Value, g *Term, where strin
 		unsupported("invoke on %T at %s", recv, where)
 	}
 	for _, a := range cc.Args {
-		args = append(args, fr.eval(a))
+		v := fr.eval(a)
+		if p, ok := v.(*PtrVal); ok {
+			v = prunePtr(p, g)
+		}
+		args = append(args, v)
 	}
 	switch callee := cc.Value.(type) {
 	case *ssa.Builtin:
@@ -313,6 +317,9 @@ func init() {
 		"(*bytes.Buffer).String":           inBuilderString,
 		"(*bytes.Buffer).WriteString":      inBuilderWrite,
 		"strings.Contains":                 inContains,
+		"(*sync.Map).Load":                 inSyncMapLoad,
+		"(*sync.Map).Store":                inSyncMapStore,
+		"(*sync.Map).LoadOrStore":          inSyncMapLoadOrStore,
 		"strings.TrimPrefix":               inTrimPrefix,
 		"fmt.Sprintf":                      inSprintf,
 		"errors.New":                       inErrorsNew,
@@ -603,6 +610,62 @@ func trimLead(s *Term, c byte, where string) *Term {
 	}
 	unsupported("strings.TrimPrefix on %v at %s", s.str(2), where)
 	return nil
+}
+
+// sync.Map as an ordinary map keyed by the dynamic value of the key (one key type per map assumed)
+func ifacePayload(v Value, where string) (*Term, *IfaceVal) {
+	iv, ok := v.(*IfaceVal)
+	if !ok {
+		unsupported("sync.Map key/value %T at %s", v, where)
+	}
+	t, ok := iv.V.(*Term)
+	if !ok {
+		unsupported("sync.Map key/value payload %T at %s", iv.V, where)
+	}
+	return t, iv
+}
+
+func syncMapLookup(ex *Exec, m *PtrVal, key *Term, g *Term) (Value, *Term) {
+	var val Value = &IfaceVal{Nil: True}
+	ok := False
+	for _, t := range m.T {
+		if t.Obj == nil {
+			continue
+		}
+		for _, e := range t.Obj.entries {
+			k := e.Key.(*Term)
+			if k.sort != key.sort {
+				continue
+			}
+			hit := And(t.G, e.G, Eq(k, key))
+			if hit.IsFalse() {
+				continue
+			}
+			val = iteValue(hit, e.Val, val)
+			ok = Or(hit, ok)
+		}
+	}
+	return val, ok
+}
+
+func inSyncMapLoad(ex *Exec, fn *ssa.Function, args []Value, g *Term, where string) Value {
+	key, _ := ifacePayload(args[1], where)
+	v, ok := syncMapLookup(ex, args[0].(*PtrVal), key, g)
+	return TupleVal{v, ok}
+}
+
+func inSyncMapStore(ex *Exec, fn *ssa.Function, args []Value, g *Term, where string) Value {
+	key, _ := ifacePayload(args[1], where)
+	ex.mapUpdate(args[0].(*PtrVal), key, args[2], g)
+	return nil
+}
+
+func inSyncMapLoadOrStore(ex *Exec, fn *ssa.Function, args []Value, g *Term, where string) Value {
+	key, _ := ifacePayload(args[1], where)
+	m := args[0].(*PtrVal)
+	v, ok := syncMapLookup(ex, m, key, g)
+	ex.mapUpdate(m, key, args[2], And(g, Not(ok)))
+	return TupleVal{iteValue(ok, v, args[2]), ok}
 }
 
 func inContains(ex *Exec, fn *ssa.Function, args []Value, g *Term, where string) Value {
